@@ -291,7 +291,8 @@ pub fn gen_recorder(rng: &mut Rng, cfg: &GenCfg) -> RecorderSpec {
             16..=17 => Some(513 + rng.below(3000) as u32),
             18 => Some(46160),
             _ => {
-                if cfg.allow_large {
+                // longer than a 16-bit size can say (the table entry keeps only the low 16 bits)
+                if cfg.allow_large || rng.chance(1, 4) {
                     Some(65537 + rng.below(5000) as u32)
                 } else {
                     Some(46160)
